@@ -5,6 +5,8 @@ miss=0
 for d in seeded/*/; do
   n=$(basename $d); id=${n%-*}; var=${n#*-}
   [ -f $d/patch.diff ] || continue
+  # optional filter: REGRESS_VARIANTS="D E F" restricts the run to those variants
+  if [ -n "${REGRESS_VARIANTS:-}" ] && ! echo " $REGRESS_VARIANTS " | grep -q " $var "; then continue; fi
   git -C /repo apply /verif/$d/patch.diff || { echo "$n: PATCH DOES NOT APPLY"; continue; }
   out=$(./check $id quick 2>&1); rc=$?
   git -C /repo checkout -- .
